@@ -7,7 +7,7 @@ from lib import core
 from lib.core import cz, czl
 from harness import common, sess
 
-THEOREMS = ['C13_generator_range', 'C13_default_range', 'C13_fresh_number', 'C13_at_most_once',
+THEOREMS = ['C13_generator_range', 'C13_default_range', 'C13_fresh_number', 'C13_generators_only_advanced', 'C13_at_most_once',
             'C13_attribution_sound', 'C13_store_keyed_invariant', 'C13_unmatched_attributes_nothing',
             'C13_no_keyerror', 'C13_nonvacuous']
 IMPORTS = ['AV.Model.Base', 'AV.Model.Seq']
